@@ -3,6 +3,7 @@
 package zzverif
 
 import (
+	"bytes"
 	"encoding/json"
 	"fmt"
 	"math"
@@ -44,6 +45,7 @@ type recView struct {
 	SubType int64   // SubscriptionIDType
 	CID     int64   // ChargingID
 	Cons    string  // consumer NF name
+	Plmn    []byte  // consumer PLMN identifier
 	Cause   int64   // CauseForRecClosing
 	Open    []byte  // RecordOpeningTime
 	Tags    []int32 // local sequence numbers of all used unit containers in order
@@ -76,6 +78,9 @@ func viewRecord(r *cdrType.CHFRecord) (v recView, err string) {
 	if c.NFunctionConsumerInformation.NetworkFunctionName != nil {
 		v.Cons = string(c.NFunctionConsumerInformation.NetworkFunctionName.Value)
 	}
+	if p := c.NFunctionConsumerInformation.NetworkFunctionPLMNIdentifier; p != nil {
+		v.Plmn = p.Value
+	}
 	v.Cause = int64(c.CauseForRecClosing.Value)
 	v.Open = c.RecordOpeningTime.Value
 	if c.LocalRecordSequenceNumber != nil {
@@ -107,6 +112,25 @@ func viewRecord(r *cdrType.CHFRecord) (v recView, err string) {
 		}
 	}
 	return
+}
+
+func mncOr93(m string) string {
+	if m == "" {
+		return "93"
+	}
+	return m
+}
+
+// plmnRef: PLMN-Id of TS 32.298 = octets 2-4 of the Routing Area Identity of TS 29.060 7.7.3:
+// MCC digit 2 | MCC digit 1, MNC digit 3 (1111 for a two-digit MNC) | MCC digit 3, MNC digit 2 | MNC digit 1.
+func plmnRef(mcc, mnc string) []byte {
+	mnc = mncOr93(mnc)
+	d := func(s string, i int) byte { return s[i] - '0' }
+	m3 := byte(0xf)
+	if len(mnc) == 3 {
+		m3 = d(mnc, 2)
+	}
+	return []byte{d(mcc, 1)<<4 | d(mcc, 0), m3<<4 | d(mcc, 2), d(mnc, 1)<<4 | d(mnc, 0)}
 }
 
 // expected containers per session reference, from the driver's own log of accepted requests
@@ -203,6 +227,9 @@ func c02Step(w *World, h *HistRun, i int) (fs []Finding) {
 			fs = append(fs, Finding{"usage-not-recorded-exactly-once", fmt.Sprintf("after step %d %s: session %s reported containers %v, its record(s) hold %v", i, last.Op, se.Ref, seqsOf(want), seqsOf(have)) + firstContDiff(want, have)})
 		}
 		for ri, rv := range recsOf[se.Ref] {
+			if want := plmnRef("208", se.MNC); !bytes.Equal(rv.Plmn, want) {
+				fs = append(fs, Finding{"wrong-consumer-plmn", fmt.Sprintf("after step %d: the record of session %s carries the consumer PLMN identifier %x; MCC 208 / MNC %s is %x (TS 32.298 PLMN-Id: the octets of TS 29.060 RAI - MCC2|MCC1, MNC3|MCC3, MNC2|MNC1)", i, se.Ref, rv.Plmn, mncOr93(se.MNC), want)})
+			}
 			if rv.CID != int64(se.CID) || rv.Cons != se.Cons || rv.SubType != int64(cdrType.SubscriptionIDTypePresentENDUSERIMSI) {
 				fs = append(fs, Finding{"identity-fields", fmt.Sprintf("after step %d: record %d of session %s has charging id %d (created with %d), consumer %q (created with %q), subscription type %d", i, ri, se.Ref, rv.CID, se.CID, rv.Cons, se.Cons, rv.SubType)})
 			}
@@ -386,7 +413,13 @@ func c03Step(w *World, h *HistRun, i int) (fs []Finding) {
 	if over := oversizeRecords(h); len(over) > 0 {
 		// a record beyond the 65535-octet limit exists: every file containing it is necessarily malformed
 		// (16-bit length field). Reported once, under the path that produced it; such states are not expanded.
-		return []Finding{{"oversize-record/" + c03Class(last.Op), fmt.Sprintf("after step %d %s: %s (no record may exceed 65535 octets)", i, opBrief(last.Op), strings.Join(over, "; "))}}
+		cls := c03Class(last.Op)
+		if cls == "single-request-over-64k" && strings.HasPrefix(over[0], "record 0 ") {
+			// the request was not moved to a fresh record: the record it was appended to outgrew the limit (not the known
+			// "one request is never split" defect)
+			cls = "update"
+		}
+		return []Finding{{"oversize-record/" + cls, fmt.Sprintf("after step %d %s: %s (no record may exceed 65535 octets)", i, opBrief(last.Op), strings.Join(over, "; "))}}
 	}
 	for _, fw := range fileWrites {
 		if fw.Step != i {
@@ -426,7 +459,9 @@ func c03Class(op Op) string {
 		n += len(m.containers())
 	}
 	switch {
-	case op.K == "update" && n >= 3500:
+	case op.K == "update" && n >= 3400:
+		// (a request that - together with the fixed part of a record - does not fit one record: it is moved to a fresh
+		// record as a whole, never split)
 		return "single-request-over-64k"
 	case op.K == "update":
 		return "update"
@@ -763,6 +798,79 @@ func cdrCheck(t *testing.T, prop string) int {
 							}
 						}
 					}
+				}}
+			st := BFSStats{}
+			RunBFS(pool, sp, rep, &st)
+			total.States += st.States
+			total.Transitions += st.Transitions
+			if st.EngineErrs > 0 {
+				exhaustive = false
+			}
+		}
+		// dense sweep: a small request (one container, less than 128 octets of usage) arriving at a record whose size takes
+		// every value in the last 80 octets below the limit - the starting record is tuned octet by octet with one "fat"
+		// container - reported offline, offline with triggers, and online with a volume-limit trigger (partial record:
+		// the record is closed and reopened, which adds members after the size has been checked)
+		fatCont := func(f int, seq int32, offline bool) Cont {
+			grow := []int32{10, 1000, 100000, 100000000}
+			lv := func() int32 { x := grow[min(f, 3)]; f -= min(f, 3); return x }
+			c := Cont{Seq: seq, Offline: offline}
+			c.Vol, c.Up, c.Down, c.SSU = lv(), lv(), lv(), lv()
+			return c
+		}
+		if n0 > 0 {
+			var jobsN, jobsF []int
+			for dn := 2; dn <= 5; dn++ {
+				for f := 0; f <= 12; f += 1 {
+					jobsN, jobsF = append(jobsN, n0+dn), append(jobsF, f)
+				}
+			}
+			for k := range jobsN {
+				pre := bulkOp(jobsN[k])
+				pre.MUs = append(pre.MUs, MU{RG: 1, Req: 10, Conts: []Cont{fatCont(jobsF[k], 300000, true)}})
+				sp := BFSSpec{Name: fmt.Sprintf("size-sweep-dense-%d-%d", jobsN[k]-n0, jobsF[k]), Check: prop, Oracle: "C03", Cfg: WorldCfg{Accounts: bigAccounts}, Supis: []string{supiA},
+					Prefix: []Op{mkCreate(0, "smf1"), pre}, MaxDepth: 1,
+					Alphabet: func(json.RawMessage, int) (ops []Op) {
+						for f := 0; f <= 12; f += 4 {
+							ops = append(ops, Op{K: "update", S: 0, MUs: []MU{{RG: 1, Req: 10, Conts: []Cont{fatCont(f, 400000, false)}}}, Trig: []string{"VOLIMM"}})
+							ops = append(ops, Op{K: "update", S: 0, MUs: []MU{{RG: 1, Req: 10, Conts: []Cont{fatCont(f, 400000, true)}}}})
+						}
+						return
+					},
+					OnState: func(ops []Op, ib json.RawMessage) {
+						var in cdrInfo
+						json.Unmarshal(ib, &in)
+						partial := len(ops) > 0 && hasTrig(ops[len(ops)-1], "VOLIMM")
+						for _, x := range in.Sizes {
+							if x > 65535-200 {
+								sweep[x] = true
+								if partial {
+									sweepPartial[x] = true
+								}
+							}
+						}
+					}}
+				st := BFSStats{}
+				RunBFS(pool, sp, rep, &st)
+				total.States += st.States
+				total.Transitions += st.Transitions
+				if st.EngineErrs > 0 {
+					exhaustive = false
+				}
+			}
+			// the first usage report of a session carrying almost a whole record's worth of usage (the record has no usage
+			// list yet: adding one grows the length octets of the enclosing elements)
+			sp := BFSSpec{Name: "size-sweep-first-report", Check: prop, Oracle: "C03", Cfg: WorldCfg{Accounts: bigAccounts}, Supis: []string{supiA},
+				Prefix: []Op{mkCreate(0, "smf1")}, MaxDepth: 1,
+				Alphabet: func(json.RawMessage, int) (ops []Op) {
+					for dn := 3; dn <= 9; dn++ {
+						for f := 0; f <= 12; f++ {
+							op := bulkOp(n0 + dn)
+							op.MUs = append(op.MUs, MU{RG: 1, Req: 10, Conts: []Cont{fatCont(f, 300000, true)}})
+							ops = append(ops, op)
+						}
+					}
+					return
 				}}
 			st := BFSStats{}
 			RunBFS(pool, sp, rep, &st)
